@@ -72,7 +72,7 @@ class Summ:
                 # the predicate's own loops bind their own element variables (one fresh set per call site)
                 if t not in self._exp:
                     self._ntag += 1
-                    self._exp[t] = self.subst(self.tag_elems(rc, ("call", tb.path, self._ntag)), env)
+                    self._exp[t] = self.subst(self.tag_elems(rc, ("tag-call", tb.path, self._ntag)), env)
                 return self._exp[t]
             return B.atom(("pred", t))
         if k == "phi":
@@ -144,7 +144,7 @@ class Summ:
                             keep.add(("elem", lp.iterable))
                             if lp.iterable[0] == "enumerate":
                                 keep.add(("enumelem", lp.iterable[1]))
-                    extra.append(B.Not(self._tag(cond, ("exit", body.path, h), keep)))
+                    extra.append(B.Not(self._tag(cond, ("tag-exit", body.path, h), keep)))
         r = B.And(base, *extra)
         self._guard[key] = r
         return r
@@ -213,7 +213,7 @@ class Summ:
         for bb in trues:
             for h in body.loops_of(bb):
                 inner.add(h)
-        r = self.tag_elems(r, ("flag", body.path, local), only_loops=(body, inner, trues))
+        r = self.tag_elems(r, ("tag-flag", body.path, local), only_loops=(body, inner, trues))
         self._flag[key] = r
         return r
 
